@@ -28,6 +28,7 @@ type goroutine struct {
 	atomicDepth int
 	vc          []int
 	spawnPos    string
+	quiet       bool // blocked waiting for quiescence
 }
 
 type Chan struct {
@@ -90,7 +91,7 @@ func (it *interpreter) spawn(fr *frame, pos token.Pos, fn value, args []value) {
 	g := &goroutine{id: len(it.gs), wake: make(chan struct{}, 1)}
 	g.spawnPos = fr.pos()
 	g.name = fmt.Sprintf("g%d@%s", g.id, g.spawnPos)
-	if fr.g != nil && (fr.g.atomicDepth > 0 || fr.g.system) {
+	if fr.g != nil && (fr.g.atomicDepth > 0 || fr.g.system) || (fr.fn.Pkg != nil && fr.fn.Pkg == it.ld.verifrt) {
 		g.system = true
 	}
 	if it.hb != nil {
@@ -196,6 +197,12 @@ func (it *interpreter) enabledOthers(self *goroutine) []*goroutine {
 			continue
 		}
 		if g.blocked {
+			if g.quiet {
+				// waits for quiescence: idle by definition while somebody evaluates quiescence
+				if it.inQuiet > 0 {
+					continue
+				}
+			}
 			if g.ready != nil && g.ready() {
 				res = append(res, g)
 			}
@@ -204,6 +211,16 @@ func (it *interpreter) enabledOthers(self *goroutine) []*goroutine {
 		res = append(res, g)
 	}
 	return res
+}
+
+// quiescent reports whether no goroutine other than self (and other quiescence waiters) can run.
+func (it *interpreter) quiescent(self *goroutine, timers bool) bool {
+	it.inQuiet++
+	defer func() { it.inQuiet-- }()
+	if len(it.enabledOthers(self)) > 0 {
+		return false
+	}
+	return !timers || len(it.pendingTimers()) == 0
 }
 
 func (it *interpreter) pendingTimers() []*timer {
@@ -227,12 +244,66 @@ func (it *interpreter) fire(t *timer) {
 	it.event("timer#%d fires at t=%dms", t.id, it.now/1e6)
 }
 
+// rotate orders goroutines round-robin starting after id `after`.
+func rotate(gs []*goroutine, after int) []*goroutine {
+	var hi, lo []*goroutine
+	for _, g := range gs {
+		if g.id > after {
+			hi = append(hi, g)
+		} else {
+			lo = append(lo, g)
+		}
+	}
+	return append(hi, lo...)
+}
+
+// chooseDelayed picks one of n alternatives under delay bounding: alternative
+// j costs j delays (deviations from the deterministic round-robin scheduler).
+func (it *interpreter) chooseDelayed(kind string, n int) int {
+	if n <= 1 {
+		return 0
+	}
+	budget := it.cfg.Preemptions - it.preemptions
+	if budget < 0 {
+		budget = 0
+	}
+	if budget > n-1 {
+		budget = n - 1
+	}
+	if budget == 0 {
+		return 0
+	}
+	k := it.pc.choose(it, kind, budget+1, nil)
+	it.preemptions += k
+	return k
+}
+
 // pickNext chooses the goroutine to run when self cannot continue (blocked or
-// finished).  It fires timers when nothing else is enabled (discrete-event
-// time) or, in adversarial mode, offers them as alternatives.
+// finished). Scheduling is delay bounded: the default is round-robin after the
+// current goroutine; every deviation costs one unit of the bound. Timers fire
+// when nothing else is enabled (discrete-event time) or, in adversarial mode,
+// are offered as (costed) alternatives.
 func (it *interpreter) pickNext(self *goroutine) *goroutine {
+	after := -1
+	if self != nil {
+		after = self.id
+	} else if it.lastRun != nil {
+		after = it.lastRun.id
+	}
 	for {
-		en := it.enabledOthers(self)
+		en := rotate(it.enabledOthers(self), after)
+		if it.cfg.MainFirst {
+			for i, g := range en {
+				if g.id == 0 && i > 0 {
+					en = append([]*goroutine{g}, append(en[:i:i], en[i+1:]...)...)
+					break
+				}
+			}
+		}
+		if self != nil && !self.done && self.blocked && self.ready != nil && self.ready() {
+			// a timer fired for the blocked goroutine itself
+			en = append(en, self)
+		}
 		var tm []*timer
 		if it.cfg.AdversarialTime {
 			tm = it.pendingTimers()
@@ -255,10 +326,7 @@ func (it *interpreter) pickNext(self *goroutine) *goroutine {
 					first = append(first, t)
 				}
 			}
-			k := 0
-			if len(first) > 1 {
-				k = it.pc.choose(it, "timer-tie", len(first), nil)
-			}
+			k := it.chooseDelayed("timer-tie", len(first))
 			it.fire(first[k])
 			continue
 		}
@@ -266,13 +334,11 @@ func (it *interpreter) pickNext(self *goroutine) *goroutine {
 		if n == 0 {
 			return nil
 		}
-		k := 0
-		if n > 1 {
-			k = it.pc.choose(it, "sched", n, nil)
-		}
+		k := it.chooseDelayed("sched", n)
 		if k < len(en) {
 			g := en[k]
 			g.blocked = false
+			it.lastRun = g
 			return g
 		}
 		it.fire(tm[k-len(en)])
@@ -280,7 +346,9 @@ func (it *interpreter) pickNext(self *goroutine) *goroutine {
 }
 
 // schedPoint is called by the running goroutine before a visible
-// synchronisation operation that it could perform right now.
+// synchronisation operation that it could perform right now. Continuing is
+// free; switching to the j-th other enabled goroutine (round-robin order)
+// costs j delays.
 func (it *interpreter) schedPoint(fr *frame, what string) {
 	self := fr.g
 	if self == nil || self.atomicDepth > 0 || it.aborting {
@@ -290,7 +358,7 @@ func (it *interpreter) schedPoint(fr *frame, what string) {
 		if it.preemptions >= it.cfg.Preemptions {
 			return
 		}
-		en := it.enabledOthers(self)
+		en := rotate(it.enabledOthers(self), self.id)
 		var tm []*timer
 		if it.cfg.AdversarialTime {
 			tm = it.pendingTimers()
@@ -299,15 +367,15 @@ func (it *interpreter) schedPoint(fr *frame, what string) {
 		if n == 1 {
 			return
 		}
-		k := it.pc.choose(it, "preempt", n, nil)
+		k := it.chooseDelayed("preempt", n)
 		if k == 0 {
 			return
 		}
-		it.preemptions++
 		if k-1 < len(en) {
 			g := en[k-1]
 			g.blocked = false
 			it.event("preempt g%d before %s at %s -> g%d", self.id, what, fr.pos(), g.id)
+			it.lastRun = g
 			it.switchTo(self, g)
 			return
 		}
@@ -330,7 +398,9 @@ func (it *interpreter) block(fr *frame, what string, ready func() bool) {
 			it.deadlock()
 			panic(abortPath{})
 		}
-		it.switchTo(self, next)
+		if next != self {
+			it.switchTo(self, next)
+		}
 		self.blocked = false
 	}
 	self.blocked = false
